@@ -1,6 +1,6 @@
 ---- MODULE MCGenScope ----
 EXTENDS LangGen
 MCP == [names |-> {"x", "y"}, funs |-> {"f"}, arity |-> [f \in {"f"} |-> 0], ty |-> "num",
-        kinds |-> {"make", "set", "shout", "call", "block", "def", "ret", "empty"},
+        kinds |-> {"make", "set", "shout", "call", "block", "def", "ret", "empty", "interp2"},
         prelude |-> <<>>, preDecl |-> {}, ops |-> {}, maxStmts |-> atoi(IOEnv.MAXSTMTS), minStmts |-> 1, maxDepth |-> atoi(IOEnv.MAXDEPTH), fuel |-> 400, events |-> atoi(IOEnv.EVENTS)]
 ====
